@@ -12,7 +12,8 @@ observations (generated text + type fingerprints of both copies).
 
 Checked on every transition (and on the initial state):
   initial   fgen(clone) == fgen(original); same symbol types; a derived-type / procedure link that
-            pointed inside the original points inside the clone
+            pointed inside the original points inside the clone; no IR node / program unit object is
+            reachable from both copies
   other     the copy that was *not* edited generates byte-identical text and shows identical
             symbol types before and after the edit
   fresh     the edited copy generates exactly what a freshly parsed, never cloned unit generates
@@ -26,6 +27,8 @@ Weaker readings: only what fgen prints and what `symbol.type` returns is observe
 identity of table entries, `source`, `_ast` are not); `clone(**overrides)` is not explored (plain
 `clone()` only); registering a cloned member in its (shared) parent's symbol table is not judged.
 """
+import gc
+
 from vf import unitzoo, unitedit as ue
 from vf.explore import bfs_levels
 
@@ -164,6 +167,7 @@ def judge(case, history):
     names = {'O': 'original', 'C': 'clone'}
     viols = []
     if not history:
+        gc.collect()
         oo, oc = ue.observe(orig), ue.observe(clone)
         ref = ref_obs(case, ())
         if oc.text != oo.text:
@@ -178,6 +182,11 @@ def judge(case, history):
             for f in _new_foreign(o, ref):
                 viols.append((f'initial: symbol of the {names[side]} scoped outside its own scope chain: {f[4]}',
                               f'{f[1]!r} is scoped in {f[2]} {f[3]!r}, which is not in the scope chain of its place'))
+        ids_o = {id(x) for x in ue.all_nodes(orig)}
+        shared = [x for x in ue.all_nodes(clone) if id(x) in ids_o]
+        if shared:
+            viols.append((f'initial: IR node object shared between original and clone: {type(shared[0]).__name__}',
+                          f'{len(shared)} node objects are reachable from both copies, first: {type(shared[0]).__name__}'))
         for kind, (symname, where) in sorted(stale.items()):
             viols.append((f'initial: {kind} link of the clone points into {where}',
                           f'symbol {symname} of the clone: its {kind} is an object of {where}'))
@@ -192,6 +201,7 @@ def judge(case, history):
         return 'disabled', None, []
     ref_prev = ref_obs(case, side_edits[:-1])
     ref_other = ref_obs(case, tuple(e for s, e in history if s == other))
+    gc.collect()
     before_other = ue.observe(copies[other])
     before_side = ue.observe(copies[side])
     what = f'{ed[0]} on the {names[side]}'
@@ -200,6 +210,9 @@ def judge(case, history):
     except Exception as e:  # pylint: disable=broad-except
         return 'ok', None, [(f'edit refused by the copy only: {what}: {type(e).__name__}',
                              f'{ue.edit_name(ed)} works on a fresh unit but raises on the {names[side]}: {e}')]
+    # `symbol.scope` is a weak reference: whether a symbol still points at a replaced (dead) scope must not
+    # depend on when the cyclic garbage collector happens to run
+    gc.collect()
     try:
         after_side, after_other = ue.observe(copies[side]), ue.observe(copies[other])
     except Exception as e:  # pylint: disable=broad-except
